@@ -75,6 +75,12 @@ structure Sys where
   freed : List String              -- owners whose dynamic-cache watches were freed (`Free`)
   setWrites : Nat                  -- writes on ObjectSets issued so far in this pass
   setEnv : List (Nat × SetEnvOp)   -- third-party op scheduled right before ObjectSet write number n
+  -- GHOST (C10, see `World.tick`): the ObjectSets after each of PKO's writes on them, stamped with
+  -- the number of write requests issued so far.  Never read by the model.
+  trail : List (Nat × (String → Option OSet)) := []
+
+/-- GHOST: remember the ObjectSets as they are after a PKO write. -/
+def Sys.note (s : Sys) : Sys := { s with trail := s.trail ++ [(s.w.gw, s.sets)] }
 
 def Sys.setSet (s : Sys) (name : String) (o : Option OSet) : Sys :=
   { s with sets := fun n => if n = name then o else s.sets n }
@@ -132,6 +138,7 @@ def Sys.bumpRV (s : Sys) : Sys × Nat :=
 deleting ObjectSet removes it. Returns the new in-memory copy. -/
 def Sys.lockedWrite (s : Sys) (mem : OSet) (f : OSet → OSet) : Sys × Except ApiErr OSet :=
   let s := s.beforeSetWrite
+  let s := { s with w := s.w.tick }
   match s.sets mem.name with
   | none => (s, .error .notFound)
   | some cur =>
@@ -139,12 +146,12 @@ def Sys.lockedWrite (s : Sys) (mem : OSet) (f : OSet → OSet) : Sys × Except A
     else
       let next := f cur
       if next.deleting && !next.finCached && !next.finOrphan then
-        (s.setSet mem.name none, .ok next)
+        ((s.setSet mem.name none).note, .ok next)
       else if next = cur then (s, .ok cur)
       else
         let (s, rv) := s.bumpRV
         let next := { next with rv := rv }
-        (s.setSet mem.name (some next), .ok next)
+        ((s.setSet mem.name (some next)).note, .ok next)
 
 /-- `EnsureCachedFinalizer` / `RemoveFinalizer`: no request when nothing changes. -/
 def Sys.setFinalizer (s : Sys) (mem : OSet) (present : Bool) : Sys × Except ApiErr OSet :=
